@@ -160,7 +160,7 @@ class C18(hc.PProp):
                     V.append(Violation(cls, 'GET %s for url %d (version %d, origin %s): %s' % (r.id, u, r.ver, 'aborted mid-body' if aborted and r.ver == 1 else 'complete', hc.diff_desc(m.body, exp))))
                 if not m.complete and not aborted and not r.conn.client_gave_up:
                     V.append(Violation('C18:truncated-without-fault', 'GET %s for url %d got %d of %d body bytes although the origin sent everything' % (r.id, u, len(m.body), len(exp))))
-                if r in inwin and not aborted and r.ver != c1[3]:
+                if r in inwin and not aborted and not r.contacts and r.ver != c1[3]:   # (a request that did its own fetch is reported as not-collapsed above)
                     V.append(Violation('C18:collapsed-client-got-other-version', 'GET %s was sent during the fetch of version %d of url %d but received version %d' % (r.id, c1[3], u, r.ver)))
         o.stats = stats
         o.nontrivial = stats['collapsed_judged'] >= 2
